@@ -20,12 +20,25 @@ from mirsym import (Ptr, Struct, Enum, Opaque, FnItem, MOVED, UNINIT, PathEnd, U
 MAXC = (1 << 63) - 3
 
 
+def mptr(root, path=(), meta=None):
+    """abstract pointer that may carry slice-length metadata (fat pointer)"""
+    p = Ptr(root, path)
+    p.meta = meta
+    return p
+
+
+def meta_of(p):
+    return getattr(p, 'meta', None)
+
+
 class UState(mirsym.State):
     def __init__(s):
         super().__init__()
         s.cnt = {}        # allocation -> z3 expr (current count word)
         s.ext = {}        # allocation -> owners held by user code outside (clones kept by a callback)
         s.freed = set()
+        s.free_meta = {}  # allocation -> slice length the block was released with (fat pointers only)
+        s.true_len = {}   # allocation -> real slice length
         s.trace = []      # human-readable steps
 
     def clone(s):
@@ -37,6 +50,8 @@ class UState(mirsym.State):
         c.cnt = dict(s.cnt)
         c.ext = dict(s.ext)
         c.freed = set(s.freed)
+        c.free_meta = dict(s.free_meta)
+        c.true_len = dict(s.true_len)
         c.trace = list(s.trace)
         return c
 
@@ -114,8 +129,26 @@ class UInterp(mirsym.Interp):
         if n.endswith('process::abort') or n == 'abort':
             raise PathEnd('abort')
         if n == 'thin_to_thick':
+            # fat pointer re-synthesised from the length RECORDED in the allocation's header
             t = st.load(args[0])
-            return cont(st, t.fields[0])
+            thin = t.fields[0]
+            try:
+                rec = st.load(Ptr(thin.root, (1, 0, 1)))
+            except Exception:
+                rec = None
+            if isinstance(rec, (Opaque, Struct, Enum, Ptr)):
+                rec = None
+            return cont(st, mptr(thin.root, thin.path, rec))
+        if re.search(r'mut_ptr::cast$|const_ptr::cast$', n):
+            # cast of a raw pointer to a sized pointee: the slice-length metadata is dropped
+            return cont(st, mptr(args[0].root, args[0].path, None))
+        if n.endswith('Arguments::from_str') or n.endswith('Arguments::new_const'):
+            return cont(st, Opaque('fmt-args'))
+        if 'panicking::' in n:
+            st.trace.append('library panics (' + n.split('::')[-1] + ')')
+            if unw is None:
+                raise PathEnd('unwind')
+            return unw(st)
         # summaries of the raw-pointer conversions (their pointer arithmetic is C11's subject)
         if n in ('arc::Arc::from_raw', 'Arc::from_raw'):
             p = args[0]
@@ -231,7 +264,9 @@ class UInterp(mirsym.Interp):
             b = st.load(ptr)
             x = b.root[1]
             st.freed.add(x)
-            st.trace.append(f'destroy payload of {x}; free {x}')
+            if meta_of(b) is not None:
+                st.free_meta[x] = meta_of(b)
+            st.trace.append(f'destroy payload of {x}; free {x}' + (' with slice length ' + str(meta_of(b)) if meta_of(b) is not None else ''))
             return cont(st)
         if ty.startswith('std::result::Result<') or ty.startswith('std::option::Option<'):
             v = st.load(ptr)
@@ -261,11 +296,15 @@ class UInterp(mirsym.Interp):
         m = re.search(r'unwind: (bb\d+)', suffix)
         if m:
             return ('bb', m.group(1))
+        m = re.match(r'^(bb\d+)$', suffix.strip())
+        if m:                      # diverging call (panic entry point): the only successor is the clean-up block
+            return ('bb', m.group(1))
         if 'unwind continue' in suffix:
             return ('continue', None)
         return ('abort', None)
 
     def run_block(s, st, fn, fr, bb, depth, cont, unw=None):
+        s._cur_fn = fn
         stmts = fn.blocks[bb]
         for ln in stmts[:-1]:
             if ln.startswith(('StorageLive', 'StorageDead', 'nop', 'FakeRead', 'PlaceMention', 'Retag', 'AscribeUserType', 'Coverage')):
@@ -377,8 +416,39 @@ class UInterp(mirsym.Interp):
             return s.call_extern(st, tgt[0], args, after, fn, my_unw)
         raise Unsupported(f'terminator {t!r} in {fn.name}')
 
+    def eval_place(s, st, fr, pl):
+        k = pl[0]
+        if k == 'local':
+            return Ptr(('L', fr, pl[1]))
+        if k == 'deref':
+            p = s.eval_place(st, fr, pl[1])
+            v = st.load(p)
+            if not isinstance(v, Ptr):
+                raise Unsupported(f'deref of {v!r}')
+            return v
+        if k == 'field':
+            p = s.eval_place(st, fr, pl[1])
+            # #[repr(transparent)] payload wrapper: its single field is the value itself in our memory model
+            try:
+                bt = s.place_type(s._cur_fn, pl[1])
+            except Exception:
+                bt = ''
+            if pl[2] == 0 and bt.strip().startswith('header::HeaderSliceWithLengthProtected<'):
+                return p
+            return mptr(p.root, p.path + (pl[2],), meta_of(p))
+        if k == 'downcast':
+            return s.eval_place(st, fr, pl[1])
+
     def eval_rvalue(s, st, fr, f, rv):
         rv = rv.strip()
+        m = re.match(r'^PtrMetadata\((.*)\)$', rv)
+        if m:
+            v = s.eval_operand(st, fr, m.group(1))
+            if meta_of(v) is None:
+                raise Unsupported(f'PtrMetadata of a pointer without metadata: {v!r}')
+            return meta_of(v)
+        if re.match(r'^core::panicking::AssertKind::\w+$', rv):
+            return Opaque('assert-kind')
         m = re.match(r'^(copy|move) (.*) as (.*) \((\w+)\)$', rv)
         if m:
             return s.eval_operand(st, fr, m.group(1) + ' ' + m.group(2))
@@ -425,9 +495,22 @@ def census(st, res, caller_place, by_value, c0):
             continue
         bad.append((f'count word of {x} differs from the number of owning handles left ({n} visible'
                     + (' + c-1 others' if x == 'a0' else '') + ')', cur != expect))
+    for x, m in st.free_meta.items():
+        if x in st.true_len:
+            bad.append((f'allocation {x} was released with a slice length different from its real one (wrong layout; elements leaked or over-dropped)', m != st.true_len[x]))
     if st.mem.get(('FLAG', 'uaf')):
         bad.append(('the count of a freed allocation was accessed', BoolVal(True)))
     return bad
+
+
+def fat_state(st, c0):
+    """allocation a0 holding HeaderSlice<HeaderWithLength<H>, [T]> with real length L and RECORDED length R"""
+    L = BitVec('len_true', 64)
+    R = BitVec('len_recorded', 64)
+    st.mem[('H', 'a0')] = Struct('ArcInner', [Struct('Atomic', [c0]),
+                                              Struct('HeaderSlice', [Struct('HeaderWithLength', [Opaque('header'), R]), Opaque('slice')])])
+    st.true_len['a0'] = L
+    return L, R
 
 
 APIS = [
@@ -440,6 +523,7 @@ APIS = [
     ('ArcBorrow::with_arc', 'with_arc', "&arc_borrow::ArcBorrow<'_, T>", 'arc_borrow::ArcBorrow<T>', False, ['closure']),
     ('ThinArc::with_arc', 'with_arc', '&ThinArc<H, T>', 'thin_arc::ThinArc<H, T>', False, ['closure']),
     ('ThinArc::with_arc_mut', 'with_arc_mut', '&mut ThinArc<H, T>', 'thin_arc::ThinArc<H, T>', False, ['closure']),
+    ('Arc::into_thin', 'into_thin', 'arc::Arc<header::HeaderSlice<header::HeaderWithLength<H>, [T]>>', 'arc::Arc<header::HeaderSlice<header::HeaderWithLength<H>, [T]>>', True, []),
 ]
 
 
@@ -458,6 +542,9 @@ def run_api(fns, consts, api):
     # the handle as the caller holds it; OffsetArc/ArcBorrow point at the data field
     data_ptr = 'OffsetArc' in hty or 'ArcBorrow' in hty
     handle = Struct(hty, [Ptr(('H', 'a0'), (1,)) if data_ptr else Ptr(('H', 'a0')), Opaque('zst')])
+    if leaf == 'into_thin':
+        L, R = fat_state(st, c0)
+        handle = Struct(hty, [mptr(('H', 'a0'), (), L), Opaque('zst')])
     place = Ptr(('L', 0, 'h'))
     st.mem[place.root] = handle
     args = [handle] if by_value else [place]
@@ -488,6 +575,9 @@ def run_api(fns, consts, api):
         if sol.check() != sat:
             continue
         checks = census(st2, res, place, by_value, c0)
+        if leaf == 'into_thin' and res[0] == 'ret':
+            checks.append(('into_thin accepted a recorded length that differs from the real slice length',
+                           BitVec('len_recorded', 64) != BitVec('len_true', 64)))
         viol = None
         for desc, cond in checks:
             sol.push()
